@@ -58,6 +58,7 @@ char *get_elf_interpreter(int exe_fd, struct trace *trace) {
         ssize_t iter_read =
             TNEG(read(exe_fd, result, program_header.p_filesz), trace);
         if (!ok(trace) || !iter_read) {
+          free(result);
           return NULL;
         }
         total_read += iter_read;
